@@ -463,7 +463,7 @@ def build_fd2(spec):
     fd["sensors names"] = mk_names_table(spec["rows"]) if "names_obj" not in spec else spec["names_obj"]
     P = spec["P"]
     idx = list(range(1, P + 1))
-    fd["points coordinates"] = mk_df(T(idx, spec.get("pts_cols", ["x", "y", "z"]), spec["pts"], "ptName"))
+    fd["points coordinates"] = mk_df(T(spec.get("pts_index", idx), spec.get("pts_cols", ["x", "y", "z"]), spec["pts"], "ptName"))
     fd["mapping"] = mk_df(T(spec.get("map_index", idx), spec.get("map_cols", ["x", "y", "z"]), spec["map"], "ptName"))
     cs = spec["cstr"]
     if cs == "empty":
@@ -1375,13 +1375,20 @@ def oracle(ctx, scale):
         oracle_case(ctx, "map", spec, {"phi": phi})
         ctx.nontrivial.add(("oracle-map", len(spec["flat"]), isinstance(spec["cstr"], dict), spec["ref_ind"] is None))
     # (4) displayed coordinates (Agg)
-    for it in range(ctx.n(6, 60) * scale):
+    for it in range(ctx.n(10, 80) * scale):
         which = 1 + it % 2
         spec = (gen_geo1 if which == 1 else gen_geo2)(rng)
         spec["opt"] = {k: v for k, v in spec["opt"].items() if k in ("sensors lines",) and v != "empty" and v["index"]}
         if which == 1:  # matplotlib drops NaN points from a scatter: keep the drawn points countable
             spec["coord"] = {q: [0.0 if isnan(c) else c for c in v] for q, v in spec["coord"].items()}
         phi = [round(rng.uniform(-2, 2), 3) for _ in spec["flat"]]
+        if which == 2 and rng.random() < 0.6:
+            # row k of the mapping belongs to row k of the points table, whatever the tables' index labels are: a points
+            # table kept in another order of labels (re-sorted, filtered) must be drawn point by point all the same
+            lab = list(range(1, spec["P"] + 1))
+            rng.shuffle(lab)
+            spec["pts_index"] = lab
+            ctx.count("oracle_plot_geo2_points_labels_permuted")
         oracle_case(ctx, "plot", spec, {"phi": phi, "scale": rng.choice([1, 2, 5])})
         ctx.count(f"oracle_plot_geo{which}")
 
